@@ -150,7 +150,11 @@ func runSeq(owners ...string) func(t *testing.T, scAny any, trace bool) *Outcome
 					rd.step(i-npro, op)
 					o.Checks++
 					a, b := strings.Join(r.cl.trace, " | "), strings.Join(rd.cl.trace, " | ")
-					if a != b {
+					if a != b && r.aliasMut {
+						o.Vio("C02.cache-changes-reply", "after-a-mutation-through-a-handle-whose-path-traverses-a-symlink", "#%d %s: reply with caches enabled differs from the reply of a server with caches at minimal TTL; earlier in this history a mutating request used a handle whose path the backend resolved through a symbolic link\n cached:   %s\n uncached: %s", i-npro, op.Op, clip(a, 700), clip(b, 700))
+						rd.finish()
+						rd = nil
+					} else if a != b {
 						o.Vio("C02.cache-changes-reply", "op="+op.Op+",last="+r.nearestMut(r.target), "#%d %s: reply with caches enabled differs from the reply of a server with caches at minimal TTL\n cached:   %s\n uncached: %s", i-npro, op.Op, clip(a, 700), clip(b, 700))
 						// the two backends may have diverged: stop comparing them for the rest of the run
 						rd.finish()
